@@ -307,6 +307,8 @@ class ExprMixin:
                 return self.math_const(MATH_CONSTS[attr])
             if attr in ('linalg', 'path', 'optimize', 'random'):
                 return ModuleVal(full)
+            if attr == 'nan':
+                return Obj(z3.Const('NaN_marker', Ref), '$nan')      # only ever a placeholder: any use as a number is unsupported
             return Builtin(attr if base.name in ('numpy', 'np', 'math') else full)
         if isinstance(base, Event):
             return getattr(base, attr)
@@ -432,18 +434,28 @@ class ExprMixin:
             else:
                 kterms.append(to_real(k))
         spec = self.map_value_spec(base, fr)
-        key = sortkey(spec)
         sig = [Ref] + [t.sort() for t in kterms]
-        nm = 'map_%s_%s' % ('_'.join(str(s) for s in sig[1:]), key)
-        f = z3.Function(nm, *sig, SORTS[key])
-        dom = z3.Function('dom_' + nm, *sig, z3.BoolSort())
+        base_nm = 'map_%s' % '_'.join(str(s) for s in sig[1:])
+        dom = z3.Function('dom_' + base_nm, *sig, z3.BoolSort())
         if 'KeyError' in self.catching(fr) and getattr(fr, 'spec', None) is None:
             self.register_exc(st, z3.Not(dom(base.ref, *kterms)), 'KeyError')
+        if isinstance(spec, (tuple, list)):
+            out = []
+            for i, sp in enumerate(spec[1]):
+                f = z3.Function('%s_%s_%d' % (base_nm, sortkey(sp), i), *sig, SORTS[sortkey(sp)])
+                out.append(self.wrap(f(base.ref, *kterms), sp))
+            return tuple(out)
+        key = sortkey(spec)
+        f = z3.Function('%s_%s' % (base_nm, key), *sig, SORTS[key])
         return self.wrap(f(base.ref, *kterms), spec)
 
     def map_value_spec(self, base, fr):
         for cc in (fr.contract, self.contract):
-            if cc is not None and '$mapval' in cc.attrs:
+            if cc is None:
+                continue
+            if base.cls and ('$mapval:' + base.cls) in cc.attrs:
+                return cc.attrs['$mapval:' + base.cls]
+            if '$mapval' in cc.attrs:
                 return cc.attrs['$mapval']
         return 'ref'
 
